@@ -60,7 +60,7 @@ class RequestChannelCommon(StreamHandler, Publisher, Subscription, Disposable, m
 
     def frame_received(self, frame: Frame):
         if isinstance(frame, CancelFrame):
-            self.subscriber.subscription.cancel()
+            self.dispose()
             self.mark_completed_and_finish(sent=True)
         elif isinstance(frame, RequestNFrame):
             if self.subscriber.subscription is not None:
